@@ -58,6 +58,9 @@ func ClassifyNATFeature(addresses []string, localIPs []string) (*NatFeature, err
 		if err != nil {
 			return nil, err
 		}
+		if portNum < 1 || portNum > 65535 {
+			return nil, fmt.Errorf("invalid port %d in address %s", portNum, addr)
+		}
 		if slices.Contains(localIPs, ip) {
 			natFeature.PublicNetwork = true
 		}
